@@ -1115,16 +1115,17 @@ func (fr *Frame) iterateCall(st *State, fn *ssa.Function, c *ssa.CallCommon, arg
 		return nil, false
 	}
 	name := calleeName(c)
-	var site *SiteSpec
+	var sites []*SiteSpec
 	for _, ss := range fr.spec.Sites {
 		if ss.Kind == "iter" && ss.Callee == name {
-			site = ss
+			sites = append(sites, ss)
+			ss.matched++
 		}
 	}
-	if site == nil {
+	if len(sites) == 0 {
 		return nil, false
 	}
-	site.matched++
+	site := sites[0]
 	r := fr.run
 	// the callback: last argument that is a closure with known code
 	var clo *Closure
@@ -1137,7 +1138,6 @@ func (fr *Frame) iterateCall(st *State, fn *ssa.Function, c *ssa.CallCommon, arg
 		r.eng.bindError(fr.spec, site.Clause, fmt.Errorf("no callback with known code at call(%s)", name))
 		return nil, true
 	}
-	label := labelOr(site.Clause, 0)
 	eval := func(s *State, cl *Clause, extra map[string]Val) (string, error) {
 		cx := fr.newCtx(s, fr.curRec, true)
 		cx.binds = map[string]Val{}
@@ -1150,22 +1150,39 @@ func (fr *Frame) iterateCall(st *State, fn *ssa.Function, c *ssa.CallCommon, arg
 		return cx.boolExpr(cl.Expr)
 	}
 	// 1. invariant holds before the iteration
-	if f, err := eval(st, site.Clause, nil); err == nil {
-		r.oblige(st, "iterate-init", name+"."+label, site.Clause.Text, f)
-	} else {
-		r.eng.bindError(fr.spec, site.Clause, err)
-		return nil, true
+	for i, ss := range sites {
+		if f, err := eval(st, ss.Clause, nil); err == nil {
+			r.oblige(st, "iterate-init", name+"."+labelOr(ss.Clause, i), ss.Clause.Text, f)
+		} else {
+			r.eng.bindError(fr.spec, ss.Clause, err)
+			return nil, true
+		}
 	}
-	// 2. forget everything the callback may write, keep the invariant
-	mods := r.eng.modsetFunc(clo.fn, map[*ssa.Function]bool{})
+	// 2. forget everything the callback may write (its own captured variables cell by cell), keep the invariant
+	fvw, mods := r.eng.closureWrites(clo.fn)
 	for _, h := range sortedKeys(mods) {
 		r.heapHavoc(st, h)
+	}
+	for i := range clo.fn.FreeVars {
+		if !fvw[i] || i >= len(clo.binds) {
+			continue
+		}
+		switch b := clo.binds[i].(type) {
+		case *Addr:
+			r.store(st, b, r.freshOf(st, "itv_"+clo.fn.FreeVars[i].Name(), b.typ))
+		case TV:
+			if pt, ok := b.T.Underlying().(*types.Pointer); ok {
+				r.storeAt(st, b.S, pt.Elem(), r.freshOf(st, "itv_"+clo.fn.FreeVars[i].Name(), pt.Elem()))
+			}
+		}
 	}
 	nf := r.declare("frontier", SInt)
 	r.assumeGlobal(app(">=", nf, st.frontier))
 	st.frontier = nf
-	if f, err := eval(st, site.Clause, nil); err == nil {
-		r.assume(st, f)
+	for _, ss := range sites {
+		if f, err := eval(st, ss.Clause, nil); err == nil {
+			r.assume(st, f)
+		}
 	}
 	// 3. one arbitrary callback invocation preserves the invariant
 	body := st.clone()
@@ -1176,18 +1193,23 @@ func (fr *Frame) iterateCall(st *State, fn *ssa.Function, c *ssa.CallCommon, arg
 		cargs = append(cargs, v)
 		extra[fmt.Sprintf("item%d", i)] = v
 	}
-	if site.Given != nil {
-		if g, err := eval(body, site.Given, extra); err == nil {
+	for _, ss := range sites {
+		if ss.Given == nil {
+			continue
+		}
+		if g, err := eval(body, ss.Given, extra); err == nil {
 			r.assume(body, g)
-			r.assumed["callback arguments of "+name+": "+site.Given.Text] = true
+			r.assumed["callback arguments of "+name+": "+ss.Given.Text] = true
 		} else {
-			r.eng.bindError(fr.spec, site.Given, err)
+			r.eng.bindError(fr.spec, ss.Given, err)
 		}
 	}
 	fr.inlineCall(body, clo.fn, clo, cargs)
 	if !body.dead {
-		if f, err := eval(body, site.Clause, nil); err == nil {
-			r.oblige(body, "iterate-pres", name+"."+label, site.Clause.Text, f)
+		for i, ss := range sites {
+			if f, err := eval(body, ss.Clause, nil); err == nil {
+				r.oblige(body, "iterate-pres", name+"."+labelOr(ss.Clause, i), ss.Clause.Text, f)
+			}
 		}
 	}
 	r.assumed["iteration schema for "+fn.String()+" (calls its function argument any number of times, nothing else)"] = true
